@@ -199,7 +199,7 @@ def run(ctx):
     n_hist = 12000 if thorough else 2500
     for _ in range(n_hist):
         fname, inst = rng.choice(cases)
-        inst = copy.copy(inst)
+        inst = copy.deepcopy(inst)   # operand objects are edited in place: nothing shared with other cases
         hists.append((fname, inst, X.gen_instr_history(inst, rng, rng.randrange(1, 7)), "hist:instr"))
     hm = ctx.driver.batch([{"op": "text.hist", "fl": f, "i": H.instr_to_json(i), "us": [u for u, _ in st]}
                            for f, i, st, _ in hists])
@@ -211,6 +211,8 @@ def run(ctx):
         bad = None
         for k, (u, act) in enumerate(steps):
             X.apply_instr(inst, act, k)
+            if act[0] == "mutop":
+                res.count("hist-operand-object-edit")
             if act[0] == "set":
                 res.count("hist-set-via:" + ("field" if act[1] in [f.name for f in H.T.operand_fields(type(inst))]
                                              else act[1]))
@@ -229,7 +231,9 @@ def run(ctx):
             res.failures.append({"what": "after in-place updates the printed text does not parse to the current "
                                          "instruction", "kf": None,
                                  "input": {"fl": fname, "start": start,
-                                           "updates": [dict(u, via=a[1]) if a[0] == "set" else u for u, a in steps],
+                                           "updates": [dict(u, via=a[1]) if a[0] == "set" else
+                                                       (dict(u, edit_operand_object=a[2]) if a[0] == "mutop" else u)
+                                                       for u, a in steps],
                                            "detail": bad}})
         if tag.endswith("witness"):
             res.samples.append({"fl": fname, "start": start, "updates": [u for u, _ in steps], "text": text})
@@ -338,6 +342,39 @@ def run(ctx):
             elif by_mn[c.mnemonic] is c and by_id[c.id] is c and rt.get("lines2") != [s_]:
                 res.failures.append({"what": "user flavour: text -> binary -> text is not stable", "kf": None,
                                      "input": {"flavour": uname, "i": j, "text": s_, "result": rt}})
+
+    # -------------------------------------------------- printer histories through the assembler
+    # the operands are printed while they still are proto-subroutine operands (integer indices), then the
+    # assembler rewrites them: the text printed afterwards must be that of the current operands
+    for t in range(1500 if thorough else 300):
+        fname = rng.choice(list(H.FLAVOURS))
+        src, prob = X.proto_print_history(fname, rng)
+        res.evaluations += 1
+        res.count("proto-print-history")
+        res.nontrivial.add(("proto-print", fname, "\n".join(src)))
+        if prob is not None:
+            res.failures.append({"what": "printer history (proto form printed, assembled, printed again): " + prob["what"],
+                                 "kf": None, "input": {"fl": fname, "source": src, "detail": prob}})
+    # -------------------------------------------------- process-wide configurations
+    # every class of every flavour: print -> parse -> binary -> print under every configuration knob
+    per_fl = {f: [H.instances_of(c, rng, 1, 2)[-1] for c in H.flavour_classes(f)] for f in H.FLAVOURS}
+
+    def _cfg_pass(cname):
+        for f, insts in per_fl.items():
+            res.evaluations += 1
+            res.count("config:" + cname.split("(")[0].split("=")[0])
+            keep = [i for i in insts if not (f == "vanilla" and type(i).id == 41)]   # F1 is judged above
+            for i in insts:
+                bad = X.own_text_ok(f, i)
+                if bad is not None:
+                    res.failures.append({"what": "str(i) does not parse back to i under a process-wide configuration",
+                                         "kf": None, "input": {"config": cname, "fl": f, "detail": bad}})
+                    break
+            bad = tbt(f, keep)
+            if bad is not None:
+                res.failures.append({"what": "text -> binary -> text is not stable under a process-wide configuration",
+                                     "kf": None, "input": {"config": cname, "fl": f, "detail": bad}})
+    H.under_every_config(_cfg_pass)
 
     # -------------------------------------------------- stream P: parser histories
     # parse(text) must be a function of the text only: parse, edit the parsed objects in place (operand
